@@ -559,3 +559,63 @@ Definition c09_case_path (par : bool) (sc : scen) (p : fspath) (ob : obs) (untou
 
 (* a valid catalog of k patches of other data, with further entries next to them *)
 Definition catalog_entries (k : nat) (more : list entry) : list entry := EMarker :: map EPatch (seq 101 k) ++ more.
+
+(* ---------- columns of independent length ----------
+   "Columns of unequal length raise."  Which inputs HAVE columns of unequal length depends on the source: the columns
+   of a table (a pandas data frame, a FITS table HDU, a Parquet file) have one row count by construction; the datasets
+   of an HDF5 file are independent arrays, each with a length of its own.  Such a source is the list of the lengths of
+   the selected columns, right ascension first (its length is the record count the reader announces and iterates to).
+
+   The reader walks over [c*cs, c*cs+cs) for every c with c*cs < n and slices EVERY column with that range; a slice
+   beyond the end of a column is cut off (numpy / h5py semantics).  DataChunk.create compares the lengths of the
+   slices of one chunk.  HDFReader.__init__ compares the lengths of the datasets themselves before anything starts
+   (`early`).  A reader that relies on the per-chunk comparison alone (SrcPerChunk of the slices) is a different
+   algorithm: Proofs/FailStopP.v says exactly which unequal columns it lets through. *)
+Definition all_eq (xs : list nat) : bool :=
+  match xs with [] => true | x :: r => forallb (Nat.eqb x) r end.
+Definition slice_len (L start stop : nat) : nat := Nat.min L stop - Nat.min L start.
+Definition nrec (lens : list nat) : nat := hd 0 lens.
+Definition nchunks_of (n cs : nat) : nat := (n + (cs - 1)) / cs.
+Definition chunk_lens (lens : list nat) (cs c : nat) : list nat :=
+  map (fun L => slice_len L (c * cs) (c * cs + cs)) lens.
+Definition slices_of (lens : list nat) (cs : nat) : list (list nat) :=
+  map (chunk_lens lens cs) (seq 0 (nchunks_of (nrec lens) cs)).
+(* the first chunk whose slices differ in length *)
+Fixpoint first_bad (sl : list (list nat)) : option nat :=
+  match sl with
+  | [] => None
+  | x :: r => if all_eq x then option_map S (first_bad r) else Some 0
+  end.
+
+(* a source of columns: independent columns behind the up-front comparison (lengths, chunk size), or the slices the
+   per-chunk comparison gets to see, chunk by chunk (firstpass: the patch centres are computed from a first pass over
+   the whole reader, so a fault of the reader strikes before the writer exists) *)
+Inductive colsource :=
+| SrcUpFront (lens : list nat) (cs : nat)
+| SrcPerChunk (sl : list (list nat)) (firstpass : bool).
+Definition cols_unequal (src : colsource) : bool :=
+  match src with
+  | SrcUpFront lens _ => negb (all_eq lens)
+  | SrcPerChunk sl _ => is_some (first_bad sl)
+  end.
+(* the scenario the pipeline executes on such a source (ea: the call fails early for another reason) *)
+Definition cols_scen (src : colsource) (p : target) (ow ea ec : bool) : scen :=
+  match src with
+  | SrcUpFront lens cs => mk_scen (nchunks_of (nrec lens) cs) None p ow (ea || negb (all_eq lens)) ec
+  | SrcPerChunk sl fp =>
+      mk_scen (length sl)
+              (if fp then None
+               else match first_bad sl with Some c => mk_fault InReader c UnequalLen | None => None end)
+              p ow (ea || (fp && is_some (first_bad sl))) ec
+  end.
+(* the same file read by a reader without the up-front comparison *)
+Definition chunk_check_only (lens : list nat) (cs : nat) : colsource := SrcPerChunk (slices_of lens cs) false.
+(* what that reader lets through: every other column is as long as the right ascension, or longer while the record
+   count is an exact multiple of the chunk size *)
+Definition slips_through (n cs : nat) (others : list nat) : Prop :=
+  Forall (fun L => L = n \/ (n < L /\ n mod cs = 0)) others.
+
+(* the checker: c09_case_path on the scenario of the source *)
+Definition c09_case_cols (par : bool) (src : colsource) (ow ea ec : bool) (p : fspath) (ob : obs)
+                         (untouched opens : bool) (h : held) (around : bool) : nat :=
+  c09_case_path par (cols_scen src TAbsent ow ea ec) p ob untouched opens h around.
